@@ -403,3 +403,83 @@ func (g *gen) value(t reflect.Type, depth int) reflect.Value {
 	}
 	return v
 }
+
+// minLeaf is the value of Variant type id tid with the SHORTEST encoding (alt selects a second shortest form where one
+// exists: a four-byte instead of a two-byte type id for extension objects). Arrays of such elements are the tightest
+// inputs for any "does the buffer still hold n elements" check in Variant.Decode.
+func (g *gen) minLeaf(tid ua.TypeID, alt bool) reflect.Value {
+	switch tid {
+	case ua.TypeIDString:
+		return reflect.ValueOf("")
+	case ua.TypeIDDateTime:
+		return reflect.ValueOf(time.Time{})
+	case ua.TypeIDGUID:
+		return reflect.ValueOf(&ua.GUID{Data4: make([]byte, 8)})
+	case ua.TypeIDByteString:
+		return reflect.ValueOf([]byte(nil))
+	case ua.TypeIDXMLElement:
+		return reflect.ValueOf(ua.XMLElement(""))
+	case ua.TypeIDNodeID:
+		return reflect.ValueOf(ua.NewTwoByteNodeID(0))
+	case ua.TypeIDExpandedNodeID:
+		return reflect.ValueOf(ua.NewTwoByteExpandedNodeID(0))
+	case ua.TypeIDQualifiedName:
+		return reflect.ValueOf(&ua.QualifiedName{})
+	case ua.TypeIDLocalizedText:
+		return reflect.ValueOf(&ua.LocalizedText{})
+	case ua.TypeIDExtensionObject:
+		if alt {
+			return reflect.ValueOf(&ua.ExtensionObject{TypeID: ua.NewFourByteExpandedNodeID(0, 12345), EncodingMask: 0})
+		}
+		return reflect.ValueOf(ua.NewExtensionObject(nil))
+	case ua.TypeIDDataValue:
+		return reflect.ValueOf(&ua.DataValue{})
+	case ua.TypeIDVariant:
+		return reflect.ValueOf(ua.MustVariant(nil))
+	case ua.TypeIDDiagnosticInfo:
+		return reflect.ValueOf(&ua.DiagnosticInfo{})
+	}
+	return reflect.Zero(g.vtypes[tid]) // fixed-size types
+}
+
+func (g *gen) minArray(tid ua.TypeID, dims []int, alt bool) reflect.Value {
+	lt := g.vtypes[tid]
+	if len(dims) == 1 {
+		st := reflect.SliceOf(lt)
+		if tid == ua.TypeIDByte {
+			st = reflect.TypeOf(ua.ByteArray{})
+		}
+		a := reflect.MakeSlice(st, dims[0], dims[0])
+		for i := 0; i < dims[0]; i++ {
+			a.Index(i).Set(g.minLeaf(tid, alt))
+		}
+		return a
+	}
+	first := g.minArray(tid, dims[1:], alt)
+	a := reflect.MakeSlice(reflect.SliceOf(first.Type()), dims[0], dims[0])
+	for i := 0; i < dims[0]; i++ {
+		a.Index(i).Set(g.minArray(tid, dims[1:], alt))
+	}
+	return a
+}
+
+// minimalVariants: for every builtin type id, 1-D and n-D arrays of minimal-size elements
+func (g *gen) minimalVariants() []*ua.Variant {
+	var out []*ua.Variant
+	shapes := [][]int{{1}, {2}, {3}, {7}, {2, 2}, {1, 3}, {1, 2, 2}}
+	for tid := ua.TypeID(1); tid <= 25; tid++ {
+		for _, alt := range []bool{false, true} {
+			if alt && tid != ua.TypeIDExtensionObject {
+				continue
+			}
+			for _, dims := range shapes {
+				m, err := ua.NewVariant(g.minArray(tid, dims, alt).Interface())
+				if err != nil {
+					panic("NewVariant(minimal array): " + err.Error())
+				}
+				out = append(out, m)
+			}
+		}
+	}
+	return out
+}
